@@ -101,6 +101,78 @@ def nested(depth, kind, filt_inner, filt_outer):
     return p
 
 
+# ---- deep dynamic nesting: the capacity of the jump-buffer stack (seeded change c07_j) ---------------------------------
+NEST_BOUND = 2048     # the property's nesting bound (Lean: Cello.Exn.nestBound, harness: C07_NEST_BOUND) — a fixed number,
+                      # NOT read from the source under test; nothing is generated beyond it
+LADDER = [1, 2, 3, 4, 5, 8, 9, 16, 17, 32, 33, 63, 64, 65, 100, 128, 129, 256, 257, 500, 512, 513, 1024, 1025, 2047, 2048]
+
+def deep_nest(d, kind, catch_at=None, catch_filter=None, handler='(s 7)', wrap='', marks=(), also=None, pass_filter=None):
+    """`d` try blocks open at the same time at the innermost point — in the harness every block body is entered through a
+    recursive call of run() -> run_try<arity>(), i.e. recursion with a try/catch per level; `wrap` adds callee frames
+    ('f': one per level, 'd': three every 64 levels). The innermost body throws `kind` (None: it completes). Level 1 is the
+    innermost block, level d the outermost; every block passes the exception on (filter of other kinds) except level
+    `catch_at` (filter `catch_filter`, default the kind itself; '' = catch-all) whose handler is `handler`, and the levels of
+    `also` = {level: (filter, handler)}."""
+    other = (kind + 1) % NK if kind is not None else 0
+    p = f'(t {kind})' if kind is not None else '(s 1)'
+    for lvl in range(1, d + 1):
+        body = p
+        if wrap == 'f': body = f'(f {body})'
+        elif wrap == 'd' and lvl % 64 == 0: body = f'(d 3 {body})'
+        if lvl in marks: body = f'(q (s {lvl % 100}) {body})'
+        if lvl == catch_at:
+            filt = (str(kind) if catch_filter is None else catch_filter); h = handler
+        elif also and lvl in also: filt, h = also[lvl]
+        else: filt = (pass_filter(lvl) if pass_filter else str(other)); h = '(s 99)'
+        p = f'(c {body} ({filt}) {h})'
+    return p
+
+def deep_cases_for(rng, d):
+    """the shapes run at nesting depth d (all within the nesting bound, all in the object domain, Type objects only)"""
+    k = rng.randrange(NK); k2 = (k + 2) % NK; o = (k + 1) % NK
+    tail = f'(c (t {k2}) ({k2}) (s 3))'                 # a construct afterwards: the depth is back where it started
+    mid = max(1, d // 2)
+    far = lambda lvl: ' '.join(str((k + 1 + (lvl + j) % (NK - 1)) % NK) for j in range(1 + lvl % 3))   # 1-3 other kinds
+    out = []
+    # thrown at the bottom, passed on by d-1 blocks, handled by the outermost (the recursion of seeded/c07_j/demo.c)
+    out.append(f'(q {deep_nest(d, k, catch_at=d, wrap="f")} {tail})')
+    # handled by the innermost block: the other d-1 complete normally and the depth returns to the start
+    out.append(f'(q {deep_nest(d, k, catch_at=1, marks=(1, mid, d))} {tail})')
+    # nothing is thrown: d blocks entered and left
+    out.append(f'(q {deep_nest(d, None, marks=(d,))} (q (s 2) {tail}))')
+    # nobody lists it: uncaught after d blocks
+    out.append(deep_nest(d, k, pass_filter=far, wrap='d'))
+    # handled in the middle (catch-all) by a handler that rethrows; the outermost block lists it among others
+    if d >= 3:
+        out.append(f'(q {deep_nest(d, k, catch_at=mid, catch_filter="", handler="(q (s 7) (r))", also={d: (f"{o} {k} {o}", "(s 8)")}, pass_filter=far)} {tail})')
+        # the handler one level above the bottom throws another kind, caught three quarters up; a library raise at the bottom
+        q3 = max(3, (3 * d) // 4)
+        inner = deep_nest(d, k, catch_at=2, handler=f'(q (s 6) (f (t {k2})))', also={q3: (f'{k2}', '(q (s 5) (g 0))'), d: ('2', '(s 4)')})
+        out.append(f'(q {inner} {tail})')
+    # the handler of an outermost block runs at the starting depth: a tower of d fits inside it again; then twice in a row
+    out.append(f'(c (t {o}) () {deep_nest(d, k, catch_at=d, catch_filter="")})')
+    out.append(f'(q {deep_nest(d, k, catch_at=max(1, d - 1))} (q {deep_nest(d, k2, catch_at=1, wrap="d")} {tail}))')
+    # a tower that starts inside the body of other blocks: j blocks outside, d - j inside, the same total
+    if d >= 4:
+        j = rng.randrange(1, d)
+        inside = deep_nest(d - j, k, pass_filter=far)
+        outer = inside
+        for lvl in range(j):
+            outer = f'(c {outer} ({k if lvl == j - 1 else o}) (s {20 + lvl % 5}))'
+        out.append(f'(q {outer} {tail})')
+    # every level with a filter of its own and a handler that completes / rethrows / throws another kind: the throw from
+    # the innermost level is caught at whichever level the filters decide, possibly re-raised several times
+    p = rng.choice([f'(t {k})', f'(f (t {k}))', f'(g {rng.randrange(2)})', f'(q (s 1) (t {k}))'])
+    for lvl in range(1, d):                     # d - 1 levels here, the catch-all around them is level d
+        r = rng.random()
+        if r < 0.90: f, h = far(lvl), '(s 99)'
+        elif r < 0.94: f, h = gen_filter(rng), '(q (s 11) (r))'
+        elif r < 0.97: f, h = gen_filter(rng), f'(q (s 12) (t {rng.randrange(NK)}))'
+        else: f, h = gen_filter(rng), '(s 13)'
+        p = f'(c {p} ({f}) {h})'
+    out.append(f'(c (q {p} (s 14)) () (s 15))')
+    return out
+
 # ---- exception objects that are not Types (harness kinds 100 + j): Strings "A","B","A","TypeError", Ints 5,7,5 ----------
 NX = 7
 STR_KINDS = [100, 101, 102, 103]; INT_KINDS = [104, 105, 106]; TYPE_KINDS = list(range(NK))
@@ -180,7 +252,9 @@ class C07(Spec):
     generators = ('Exn',)
     technique = 'Lean 4 proof by structural induction: machine model of the macros refines structured-exception semantics; source-derived parameters regenerated each run; differential check against the real macros'
     level_text = ('Theorem C07_machine_refines_reference: for every program tree inside the stated domain (non-NULL exception objects with '
-                  'well-formed messages, arbitrary catch filters — an object may be listed any number of times —, nesting within EXCEPTION_MAX_DEPTH), '
+                  'well-formed messages, arbitrary catch filters — an object may be listed any number of times —, nesting within EXCEPTION_MAX_DEPTH; '
+                  'C07_within_nesting_bound states it for nesting <= 2048, a fixed number, through C07_depth_capacity: 2048 <= the EXCEPTION_MAX_DEPTH read from the source, '
+                  'and C07_capacity_never_reached: within that bound no program of any kind takes the overflow branch of exception_try or depends on the capacity), '
                   'every bound variable and start state, '
                   'the model of try/catch/throw (depth, active flag, jump-buffer indices, the filter walk of exception_catch by index) produces '
                   'exactly the trace of a structured-exception reference semantics — throws from bodies, callees and handlers, rethrow of the bound '
@@ -205,7 +279,13 @@ class C07(Spec):
             'quarter of the filters of arity >= 2, calls, callees at dynamic depth up to 150 frames, rethrow, exceptions raised by library functions — get on a '
             'missing Table key, rem of an absent Array element — inside bodies and handlers), '
             '(c) lexically nested 3-level blocks inside one C function for every throw/filter choice sampled, (d) dynamic nesting to depth '
-            '200/2000 plus corpus: exactly EXCEPTION_MAX_DEPTH and one more (abort), (e) chains of handlers that throw/rethrow into the enclosing '
+            '200/2000 plus corpus: exactly EXCEPTION_MAX_DEPTH and one more (abort), (i) the capacity of the jump-buffer stack: a ladder of nesting depths '
+            '1 … 2048 (powers of two and their neighbours, 63/64/65, 100, 500, 2047, 2048) with the recursion-with-a-try-per-level shape, and at depths 63, 64, 65, 100, 500, 2047, 2048 '
+            'plus depths drawn from the seed ten shapes each: thrown at the innermost level and handled by the outermost / the innermost / a middle block whose handler rethrows / '
+            'nobody (uncaught), nothing thrown (d blocks entered and left), a handler that throws another kind caught higher up and a library raise from a handler, a tower inside a '
+            'handler at the starting depth, two towers in a row, a tower that starts inside j enclosing blocks, and per-level random filters and handlers (complete / rethrow / '
+            'throw); every one followed by a further construct so that the restored depth is used; callee frames between the levels; none beyond the bound 2048. These are judged '
+            'by a reference interpreter that has no capacity (harness, bound fixed in the harness) and by machine-vs-reference on the model side (driver, bound fixed in the model), (e) chains of handlers that throw/rethrow into the enclosing '
             'block, (f) one try site re-entered recursively, (g) blocks whose filter repeats objects, asked about an exception listed before / after '
             'the repeat / not at all, (h) programs whose thrown objects and filter entries are heap Strings (two distinct objects of equal value, one '
             'whose text is a Type\'s name) and heap Ints next to the Type objects, generated over four pools and kept when the reference run meets no '
@@ -218,7 +298,14 @@ class C07(Spec):
                     'harness/h_exn.c + lean/Driver/Exn.lean (correspondence is testing)',
                     'setjmp/longjmp, fork/exit status/alarm (libc) are modelled, not verified')
     assumptions = ('single thread; no return/goto out of a try body (documented misuse)',
-                   'try-nesting depth within EXCEPTION_MAX_DEPTH for the refinement theorems (beyond it: modelled and tested, exception_try aborts: C07_overflow_aborts)',
+                   'nesting bound of the property ("up to a size and nesting bound"): at most 2048 try blocks open at the same time in one thread (lexical + dynamic) — the fixed number '
+                   'Cello.Exn.nestBound / C07_NEST_BOUND of the harness / NEST_BOUND of the generator, never the EXCEPTION_MAX_DEPTH of the tree under test; the theorems need '
+                   'C07_depth_capacity (2048 <= the capacity read from the source: the value exception_try tests against, which must also be covered by the dimension of '
+                   'struct Exception.buffers and by the memset/memcpy over it: C07_buffers_hold_capacity), the direct oracle judges every program within the bound by a reference '
+                   'interpreter without capacity (an overflow abort there is oracle signature exn-capacity). Beyond the bound (2049 blocks and more) is OUTSIDE the property: the '
+                   'unchanged tree does not raise an exception there but prints "Exception Buffer Overflow" and abort()s the process — modelled (C07_overflow_aborts), compared '
+                   'with the model on corpus/exn_zdepth.ops, accepted by the direct oracle as "reference behaviour or clean abort with a prefix of the reference trace" (anything '
+                   'else: exn-overflow), never generated',
                    'object domain (hypothesis inDomain of the theorems): exception objects and filter entries are non-NULL objects that outlive the jump; the message format has enough '
                    'arguments. C07_machine_refines_reference is about the world in which every object is a Type object with a name of its own (eq = identity; C07_type_objects_instance proves it is '
                    'that instance of C07_any_objects); C07_any_objects is about Type, String and Int objects compared the way exception_catch compares them (eq = the Cmp instance of the filter '
@@ -244,6 +331,15 @@ class C07(Spec):
             rng2 = rng; allp = allp[:2000] + rng2.sample(allp[2000:], (4000 if quick else 58000))
         for i in range(0, len(allp), 500):
             cs.append(Case(f'enum{i//500}', ['P ' + p for p in allp[i:i+500]]))
+        # (i) the capacity of the jump-buffer stack: dynamic nesting up to the property's bound, judged by the reference
+        # interpreter WITHOUT capacity (harness) and by machine-vs-reference on the model side (compare() below). First a ladder
+        # in DESCENDING order with the simplest shape (core.ddmin drops lines from the front while the rest still fails: what is
+        # left of a shrunk capacity is its lowest rung above it), then every shape of deep_cases_for at the boundary depths
+        # and at a few depths drawn from the seed.
+        cs.append(Case('capladder', ['P ' + deep_nest(d, d % NK, catch_at=d, wrap='f' if d % 2 else '') for d in reversed(LADDER)]))
+        depths = [63, 64, 65, 100, 500, NEST_BOUND - 1, NEST_BOUND] + sorted(rng.randrange(66, NEST_BOUND - 1) for _ in range((2 if quick else 16) * boost))
+        for d in depths:
+            cs.append(Case(f'nest{d}', ['P ' + p for p in deep_cases_for(rng, d)]))
         # (b) random trees
         nrand = (1500 if quick else 40000) * boost
         lines = []
@@ -289,6 +385,16 @@ class C07(Spec):
         for i in range(0, len(ob), 500):
             cs.append(Case(f'objects{i//500}', ob[i:i+500]))
         return cs
+    def compare(self, case, c_out, m_out):
+        """correspondence = the harness's and the driver's O lines agree AND, wherever the hypotheses of
+        C07_within_nesting_bound_any_objects hold (R line: hyp=true — object domain, no clash, nesting within the FIXED bound
+        2048), the machine's O line agrees with the reference's R line. The second half is what notices a machine that follows
+        a shrunk EXCEPTION_MAX_DEPTH faithfully (O lines agree: both abort) and thereby leaves the reference."""
+        d = core.first_divergence(c_out, m_out)
+        if d: return d
+        cex = self.model_selfcheck(case, m_out)
+        if cex: return (-1, '<machine and implementation agree with each other, not with the reference>', cex[:3000])
+        return None
     def nontrivial_items(self, case, c_out, m_out):
         ops = [l for l in case.lines if l and not l.startswith('#')]
         obs = core.lines_with('O ', c_out)
@@ -308,6 +414,12 @@ class C07(Spec):
         for l in m_out.split('\n'):
             if l.startswith('R ') and 'nodup=false' in l: acc['with_repeated_filter_object'] = acc.get('with_repeated_filter_object', 0) + 1
             if l.startswith('R ') and 'noclash=false' in l: acc['in_clash_territory'] = acc.get('in_clash_territory', 0) + 1
+            if l.startswith('R '):
+                mn = re.search(r' nest=(\d+) ', l)
+                if mn:
+                    n = int(mn.group(1))
+                    b = 'nest_le_8' if n <= 8 else 'nest_9_64' if n <= 64 else 'nest_65_512' if n <= 512 else 'nest_513_2047' if n < NEST_BOUND else 'nest_2048' if n == NEST_BOUND else 'nest_beyond_bound'
+                    acc[b] = acc.get(b, 0) + 1
     def model_selfcheck(self, case, m_out):
         ls = m_out.split('\n')
         for i in range(len(ls) - 1):
@@ -315,8 +427,8 @@ class C07(Spec):
             if ls[i].startswith('O ') and ls[i+1].startswith('R ') and 'hyp=true' in ls[i+1]:
                 ot = ls[i].split('trace=')[1].split(' end=')[0]; rt = ls[i+1].split('trace=')[1].split(' exc=')[0]
                 oend = ls[i].split('end=')[1].split()[0]; rexc = ls[i+1].split('exc=')[1].split()[0]
-                if ot != rt or (oend == 'normal') != (rexc == 'none'):
-                    return f'machine `{ls[i]}` vs reference `{ls[i+1]}`'
+                if ot != rt or (oend == 'normal') != (rexc == 'none') or oend not in ('normal', 'fatal'):
+                    return f'machine `{ls[i][:1200]}` vs reference `{ls[i+1][:1200]}`'
         return None
 
 SPEC = C07()
